@@ -53,6 +53,13 @@
 #define S3M_SKIP	0xfe
 
 
+#ifdef LIBXMP_VERIF
+/* Verification hook H3: told about every iteration of the scan's outer loop (0),
+ * every row it processes (1, with the visit counter after the increment) and
+ * every row-delay adjustment of a visit counter (2, with the new counter). */
+void (*libxmp_verif_scanlog)(int what, int ord, int row, int value) = NULL;
+#endif
+
 static int scan_module(struct context_data *ctx, int ep, int chain)
 {
     struct player_data *p = &ctx->p;
@@ -156,6 +163,10 @@ static int scan_module(struct context_data *ctx, int ep, int chain)
 	    break;
 	}
 	orders_since_last_valid++;
+#ifdef LIBXMP_VERIF
+	if (libxmp_verif_scanlog)
+		libxmp_verif_scanlog(0, ord + 1, 0, orders_since_last_valid);
+#endif
 
 	if ((uint32)++ord >= mod->len) {
 	    if (mod->rst > mod->len || mod->xxo[mod->rst] >= mod->pat) {
@@ -287,6 +298,10 @@ static int scan_module(struct context_data *ctx, int ep, int chain)
 		goto end_module;
 	    }
 	    m->scan_cnt[ord][row]++;
+#ifdef LIBXMP_VERIF
+	    if (libxmp_verif_scanlog)
+		libxmp_verif_scanlog(1, ord, row, m->scan_cnt[ord][row]);
+#endif
 	    orders_since_last_valid = 0;
 	    any_valid = 1;
 
@@ -531,6 +546,10 @@ static int scan_module(struct context_data *ctx, int ep, int chain)
 			/* Don't allow the scan count for this row to overflow here. */
 			int x = m->scan_cnt[ord][row] + (p1 & 0x0f);
 			m->scan_cnt[ord][row] = MIN(x, 255);
+#ifdef LIBXMP_VERIF
+			if (libxmp_verif_scanlog)
+				libxmp_verif_scanlog(2, ord, row, m->scan_cnt[ord][row]);
+#endif
 			frame_count += (p1 & 0x0f) * speed;
 		}
 
